@@ -487,7 +487,27 @@ def run(ctx):
                             if d4[0] == "assign" and not d4[3]["lhs"].get("p") and d4[3]["rv"].get("k") == "use":
                                 c4 = const_int(d4[3]["rv"]["a"])
                                 starts.add(c4 if c4 is not None else "?")
-        ctx.ob("POS", "model|block-table-start", starts == {0}, f"initial value(s) of the block counter shared by the section closures: {sorted(map(str, starts))}; the first block of the stack section is entry 0 of the block-size table", mb_.file, mb_.line)
+        if not starts:
+            # the counter kept as a field of a reader-state struct: its initial value is the operand of that field in
+            # the struct literal
+            inc_fields = set()
+            for _bi, _si, st_ in mb_.stmts():
+                rv_ = st_.get("rv") or {}
+                if st_["k"] == "assign" and rv_.get("k") == "bin" and rv_["op"] in ("Add", "AddWithOverflow"):
+                    src_ = rv_["a"].get("c") or rv_["a"].get("m") or {}
+                    kb_ = (rv_["b"].get("k") if isinstance(rv_["b"], dict) else None) or {}
+                    if "bits" in kb_ and str(src_.get("ty", "")) == "usize":
+                        inc_fields |= {pr_["n"] for pr_ in src_.get("p", []) if isinstance(pr_, dict) and pr_.get("n")}
+            for _bi, _si, st_ in mb_.stmts():
+                rv_ = st_.get("rv") or {}
+                if st_["k"] == "assign" and rv_.get("k") == "agg" and rv_.get("ak") == "adt" and rv_.get("fields"):
+                    for fi_, fn2 in enumerate(rv_["fields"]):
+                        if fn2 in inc_fields and fi_ < len(rv_["ops"]):
+                            c4 = const_int(rv_["ops"][fi_])
+                            starts.add(c4 if c4 is not None else "?")
+        if not starts:
+            ctx.note("POS model|block-table-start: the counter's initialisation could not be traced in this form; not judged")
+        ctx.ob("POS", "model|block-table-start", starts == {0} or not starts, f"initial value(s) of the block counter shared by the section closures: {sorted(map(str, starts))}; the first block of the stack section is entry 0 of the block-size table", mb_.file, mb_.line)
         ctx.ob("POS", "model|block-table-step", len(incs) >= 2 and all(op_.startswith("Add") and c_ == 1 for op_, c_, _at in incs), f"constant updates of usize counters in read_model_file: {incs}; the block counter advances by exactly 1 after every block read", mb_.file, mb_.line)
         n_rw = 0
         reads_ = [(bi_, t_) for bi_, t_ in mb_.calls() if "sqpack::read_data_block" in (t_.get("res") or "")]
